@@ -37,6 +37,14 @@ use ev::*;
 fn main() {
     let args: Vec<String> = std::env::args().collect();
     if args.len() < 2 { eprintln!("usage: erv <Cxx|selftest> [options]"); std::process::exit(3); }
+    if args[1] == "merge-hashes" {
+        // union of the 64-bit case hashes written by the shards: prints the number of distinct values
+        let mut all: Vec<u64> = vec![];
+        for f in args[2..].iter() { if let Ok(b) = std::fs::read(f) { for c in b.chunks_exact(8) { all.push(u64::from_le_bytes([c[0], c[1], c[2], c[3], c[4], c[5], c[6], c[7]])); } } }
+        all.sort_unstable(); all.dedup();
+        println!("{}", all.len());
+        return;
+    }
     let prop = args[1].clone();
     let mut ctx = Ctx { prop: prop.clone(), tier: Tier::Quick, seed: 1, shard: 0, nshards: 1, mode: Mode::Native, build: "rel".into(), only_case: None, part: String::new() };
     let mut out: Option<String> = None;
